@@ -1,6 +1,6 @@
 # Per-property claims; exec'd by gen_manifest.py (claim(id, technique, text, note, design_ref)).
 PENDING = "check not built yet in this framework (DESIGN.md §8 build order); no verdict is claimed until its rule set runs clean both ways"
-for _p in ["C01","C02","C03","C04","C05","C06","C07","C08","C11","C12","C13","C14","C15","C16","C17","C18","C19","C20"]:
+for _p in ["C01","C02","C03","C04","C05","C06","C07","C08","C11","C12","C14","C15","C16","C17","C18","C19","C20"]:
     NOT_APPLICABLE[_p] = PENDING
 
 claim("C10",
@@ -14,3 +14,9 @@ claim("C09",
   "Every place in the library where a Destination or RouterIdentity receives a non-nil KeysAndCert is enumerated from the SSA program (not from examples), and each must be behind the success edge of a checked key-type validator on that same value, or derive from an identity whose prohibited sets are a superset. The validators' reject regions are extracted as functions of the type codes and compared with the specification sets on all 65,536 codes (equality, so permitted types are never rejected). This covers every API path at once, which is what the tests cannot enumerate.",
   "Trusted: go/ssa; values assembled by callers through the exported embedded field are out of scope. The validator is evaluated under the assumption that KeysAndCert and KeyCertificate are non-nil.",
   "DESIGN.md §5 C09")
+
+claim("C13",
+  "SSA pattern check of pure delegation to the standard encodings + initialiser/alphabet constants + no-store-to-global scan + guard regions by interval partitioning",
+  "Shows that the base32/base64 packages add nothing to Go's standard RFC 4648 encoders except the I2P alphabets and the Safe length guards: encoding globals are NewEncoding(I2P alphabet)[.WithPadding(NoPadding)] and are never stored to again anywhere in the program; each exported function is guards + one pass-through call of the matching Encoding method; Safe guards reject exactly len==0 and len>MAX; MAX_DECODE_SIZE = EncodedLen(MAX_ENCODE_SIZE). Round trip and strict-alphabet behaviour for all inputs then follow from the standard library, which a sampled test cannot establish for this wrapper either way.",
+  "Trusted: correctness of encoding/base32 and encoding/base64 (round trip, foreign characters rejected, CR/LF skipped, padding validated). Function roles (NoPadding/Safe) are taken from the exported function names.",
+  "DESIGN.md §5 C13")
